@@ -778,8 +778,74 @@ def rule_u10(F):
                           "the number of unresolved imports after a round is compared with a count that is not taken at the start of the same round: after one successful round a later round "
                           "without progress is no longer detected and the loop never ends (compilation hangs instead of reporting the unresolvable import)")
     if not found:
+        found = _u10_rebuilt_list(F, r, b, defs, dom, loops, lens)
+    if not found:
         r.missing("the comparison of the unresolved counts before and after a round in TypeChecker::imports")
     return r
+
+
+def _u10_rebuilt_list(F, r, b, defs, dom, loops, lens):
+    """Third form of the round: the unresolved imports of this round are collected in a FRESH list (`let mut remaining = Vec::new()`
+    inside the loop, pushed to while the round walks the current list) and the no-progress test compares the length of that list
+    with the length of the list the round walked; the fresh list then becomes the next round's list.  Both counts belong to the
+    same round by construction."""
+    imports = [bi for bi, t in mir.calls(b) if hir.last(mir.callee(t) or mir.callee_def(t) or "") == "import" and any(bi in nodes for _, nodes in loops)]
+    if not imports:
+        return 0
+
+    def base(op):
+        l = op[1][0]
+        for _ in range(8):
+            ds = defs.whole_defs(l)
+            if len(ds) == 1 and ds[0][2] == "assign" and ds[0][3]["rv"]["k"] in ("ref", "use"):
+                rv = ds[0][3]["rv"]
+                src = rv.get("p") if rv["k"] == "ref" else (rv["o"][1] if mir.is_place_op(rv.get("o")) else None)
+                if not src:
+                    break
+                l = src[0]
+            elif len(ds) == 1 and ds[0][2] == "call" and hir.last(mir.callee_def(ds[0][3]) or "") in ("deref", "as_slice", "borrow", "as_ref") and ds[0][3]["args"] and mir.is_place_op(ds[0][3]["args"][0]):
+                l = ds[0][3]["args"][0][1][0]
+            else:
+                break
+        return l
+    found = 0
+    outer = max([(h, nodes) for h, nodes in loops if imports[0] in nodes], key=lambda x: len(x[1]))
+    h, nodes = outer
+    for bi in sorted(nodes):
+        for st in b.blocks[bi]["stmts"]:
+            if st["k"] != "assign" or st["rv"]["k"] != "bin" or st["rv"].get("op") not in ("Eq", "Ne", "Lt", "Le", "Gt", "Ge"):
+                continue
+            a, c = st["rv"]["a"], st["rv"]["b"]
+            if not (mir.is_place_op(a) and mir.is_place_op(c)):
+                continue
+            la = [x for x in mir.back_calls(b, defs, a[1][0]) if x in lens]
+            lc = [x for x in mir.back_calls(b, defs, c[1][0]) if x in lens]
+            if len(la) != 1 or len(lc) != 1:
+                continue
+            recv = [base(b.blocks[x]["term"]["args"][0]) for x in (la[0], lc[0]) if mir.is_place_op(b.blocks[x]["term"]["args"][0])]
+            if len(recv) != 2 or recv[0] == recv[1]:
+                continue
+
+            def fresh(l):
+                return any(d[2] == "call" and d[0] in nodes and hir.last(mir.callee_def(d[3]) or "") in ("new", "with_capacity") and "Vec" in (mir.callee_def(d[3]) or "") for d in defs.whole_defs(l))
+
+            def pushed_in_round(l):
+                return any(hir.last(mir.callee_def(t) or "") == "push" and t["args"] and mir.is_place_op(t["args"][0]) and base(t["args"][0]) == l and pb in nodes for pb, t in mir.calls(b))
+            fr = [l for l in recv if fresh(l) and pushed_in_round(l)]
+            if len(fr) != 1:
+                continue
+            new_l = fr[0]
+            old_l = [l for l in recv if l != new_l][0]
+            walked = any(hir.last(mir.callee_def(t) or "") in ("into_iter", "iter") and t["args"] and mir.is_place_op(t["args"][0]) and base(t["args"][0]) == old_l and ib in nodes
+                         and any(ib in dom[i_] for i_ in imports) for ib, t in mir.calls(b))
+            handed_on = any(d[2] == "assign" and d[0] in nodes and d[3]["rv"]["k"] == "use" and mir.is_place_op(d[3]["rv"]["o"]) and base(d[3]["rv"]["o"]) == new_l for d in defs.whole_defs(old_l))
+            found += 1
+            r.inst("no-progress test line %s" % st.get("line"), {"line": st.get("line"), "form": "rebuilt list", "round_walks_the_old_list": walked, "fresh_list_becomes_the_next_rounds_list": handed_on})
+            if not (walked and handed_on):
+                r.bad(b.path, "no-progress test against a count from outside the round", relfile(b.file), st.get("line"),
+                      "the list whose length the no-progress test compares with the freshly collected unresolved imports is not the list this round walked (or the fresh list is not what the "
+                      "next round walks): a round without progress is not detected and the loop never ends")
+    return found
 
 
 def rule_u11(F):
